@@ -14,3 +14,28 @@ func (r *RIB) VfPendingIDs() []uint64 {
 	}
 	return ids
 }
+
+// VfRefCounts returns a copy of the reference counters per network instance
+// ("nhg"/"nh" -> id -> count), zero entries omitted.
+func (r *RIB) VfRefCounts() map[string]map[string]map[uint64]uint64 {
+	out := map[string]map[string]map[uint64]uint64{}
+	r.nrMu.RLock()
+	defer r.nrMu.RUnlock()
+	for name, h := range r.niRIB {
+		h.refCounts.mu.RLock()
+		m := map[string]map[uint64]uint64{"nhg": {}, "nh": {}}
+		for k, v := range h.refCounts.NextHopGroup {
+			if v != 0 {
+				m["nhg"][k] = v
+			}
+		}
+		for k, v := range h.refCounts.NextHop {
+			if v != 0 {
+				m["nh"][k] = v
+			}
+		}
+		h.refCounts.mu.RUnlock()
+		out[name] = m
+	}
+	return out
+}
